@@ -32,7 +32,7 @@ CALLBACKS = ('landweber', 'cg', 'cg_normal', 'kaczmarz', 'mlem', 'osmlem',
 TIERS = {
     'C11': {'quick': {'runs': 32000, 'budget_s': 100, 'chunk': 50},
             'thorough': {'runs': 800000, 'budget_s': 1800, 'chunk': 200}},
-    'C12': {'quick': {'runs': 20000, 'budget_s': 100, 'chunk': 30, 'hang_s': 300},
+    'C12': {'quick': {'runs': 16000, 'budget_s': 100, 'chunk': 30, 'hang_s': 300},
             'thorough': {'runs': 600000, 'budget_s': 1800, 'chunk': 100,
                          'hang_s': 600}},
 }
